@@ -82,8 +82,15 @@ def inspect_frame(frame: FrameType) -> FrameDetails:
     # Basic sanity checks cross-referencing the values we can get from Python
     # with their Python values
     frame_raw = FrameObjectStart.from_address(id(frame))
-    refcnt = frame_raw.ob_refcnt
-    assert refcnt + 1 == sys.getrefcount(frame)
+    for _ in range(100):
+        # (Another thread that walks our stack - a sampling profiler, a
+        # debugger - may hold a reference for a moment; the two readings
+        # only have to agree once.)
+        refcnt = frame_raw.ob_refcnt
+        if refcnt + 1 == sys.getrefcount(frame):
+            break
+    else:
+        assert refcnt + 1 == sys.getrefcount(frame)
     assert frame_raw.ob_type == id(type(frame))
     assert frame_raw.f_back == (id(frame.f_back) if frame.f_back is not None else 0)
     assert frame_raw.f_code == id(frame.f_code)
